@@ -82,6 +82,44 @@ def _make(kind, tag=""):
     return mk, names, assume, bounds
 
 
+def _cexp(x):
+    import jax.numpy as jnp
+    return jnp.exp(jnp.clip(x, max=20.0))
+
+
+def _ref(kind):
+    """The formulas recorded with known findings F11a/b (exp clipped at 20), written out here: a clip-regime
+    round-trip failure is the *recorded* defect only if the tree's forward and inverse are these functions."""
+    import jax.numpy as jnp
+    if kind == "sigmoid":
+        return (lambda x, lo, hi: lo + (hi - lo) * (1.0 / (1.0 + _cexp(-x))),
+                lambda y, lo, hi: -jnp.log(1.0 / ((y - lo) / (hi - lo)) - 1.0))
+    if kind == "softplus":
+        return (lambda x, lo: jnp.log1p(_cexp(x)) + lo, lambda y, lo: jnp.log(_cexp(y - lo) - 1.0))
+    if kind == "negsoftplus":
+        return (lambda x, up: -(jnp.log1p(_cexp(-x)) + (-up)), lambda y, up: -jnp.log(_cexp(-y - (-up)) - 1.0))
+    if kind == "affine":
+        return (lambda x, a, b: a * x + b, lambda y, a, b: (y - b) / a)
+    raise KeyError(kind)
+
+
+def _ref_build(inst):
+    kinds = inst["seq"] if inst["t"] == "chain" else [inst["t"]]
+    refs = [_ref(k) for k in kinds]
+    sizes = [len(_make(k)[1]) for k in kinds]
+    def fwd(x, *h):
+        o = 0
+        for (f, _), s_ in zip(refs, sizes):
+            x = f(x, *h[o:o + s_]); o += s_
+        return x
+    def inv(y, *h):
+        offs = [sum(sizes[:i]) for i in range(len(sizes))]
+        for (_, g), s_, o in reversed(list(zip(refs, sizes, offs))):
+            y = g(y, *h[o:o + s_])
+        return y
+    return fwd, inv
+
+
 def _hyper_ranges(q, names):
     for n in names:
         q.bounds(n, -1000.0, 1000.0)
@@ -193,6 +231,22 @@ def run_scalar(inst):
     lo, hi = b["bounds"]([h.item() for h in H])
     label0 = inst["t"] + ("[" + ",".join(inst.get("seq", [])) + "]" if "seq" in inst else "")
 
+    # is the tree's transform the function recorded with F11a/b?  (structural identity, else solver)
+    rfwd, rinv = _ref_build(inst)
+    pinned = True
+    for what, code_node, rf, arg in (("forward", fx, rfwd, x), ("inverse", iy, rinv, y)):
+        ref_node = enc(rf, arg, *H)
+        if ref_node is code_node:
+            res["counters"]["pin_structural"] = res["counters"].get("pin_structural", 0) + 1
+            continue
+        q = smt.Query(f"C17/{label0}/pin_{what}"); _domain(q, names, b["assume"], xs=(("x",) if what == "forward" else ("y",)))
+        q.add(sym.ne(code_node, ref_node))
+        r = q.check(timeout=timeout)
+        res["counters"][f"q_pin_{what}_{r.status}"] = res["counters"].get(f"q_pin_{what}_{r.status}", 0) + 1
+        if r.status != "unsat":
+            pinned = False
+    res["counters"]["recorded_formula_" + str(pinned)] = 1
+
     def obligations_false(nodes):
         obl = sym.obligations(nodes)
         c = [sym.band(c_, sym.eq(n, const(0))) for c_, k, n in obl if k == "div"]
@@ -213,7 +267,7 @@ def run_scalar(inst):
             if r.has_witness:
                 bad, obs = _replay_scalar(inst, clause, r.model)
                 if bad:
-                    sig = {"transform": label0, "clause": clause.split("@")[0], "clip_active": bool(known_regime)}
+                    sig = {"transform": label0, "clause": clause.split("@")[0], "clip_active": bool(known_regime), "recorded_formula": pinned}
                     res["violations"].append({"signature": sig, "what": f"{label0}: clause {clause} fails: {obs}",
                                               "replay": {"inst": inst, "clause": clause, "model": {k: v for k, v in r.model.items() if not k.startswith(("t", "arg_"))}, "observed": obs}})
                     return
